@@ -45,7 +45,7 @@ LEVEL = {'text': 'Machine-checked (41 theorems, no axioms), all for unbounded si
 
 RULE = ('cases: (a) hash functions on byte strings (random ASCII/UTF-8/raw bytes, engineered 32-bit-overflow and collision '
         'families); (b) symbol-table scenarios: 0..2000 symbols (quick: mostly 0..12, some up to 200, a few up to 2000), '
-        'duplicate/empty/non-ASCII/long names, boundary and random st_info/st_other/st_shndx/value/size, both classes and byte '
+        'duplicate/empty/non-ASCII/long names, versioned spellings base@VER / base@@VER / a@b@c with and without a bare twin (queried by their pieces), boundary and random st_info/st_other/st_shndx/value/size, both classes and byte '
         'orders, entry sizes above the standard, shared-suffix string tables, random section order with garbage gaps; '
         '(c) SysV tables (nbucket 1..2n, head- or tail-inserted chains) and (d) GNU tables (nbuckets 1.., bloom size 1.., '
         'shift 0..31, symoffset 0..n, forced full-hash collisions, section last in the file so the final chain ends at EOF), '
@@ -194,6 +194,12 @@ def _names_for(rng, n):
         elif names and r < 0.40:
             t = _sysv_twin(rng.choice(names), rng)               # present full SysV collision
             names.append(t if t is not None else _name(rng))
+        elif names and r < 0.52:
+            # versioned spellings base@VER / base@@VER / a@b@c of a name that may or may not also occur bare
+            base = rng.choice(names) if rng.random() < 0.6 else _name(rng)
+            base = base.split(b'@')[0] if rng.random() < 0.5 else base
+            ver = rng.choice([b'GLIBC_2.14', b'GLIBC_2.2.5', b'V1', b'y', b'b@c', 'ü1'.encode()])
+            names.append(base + rng.choice([b'@', b'@@']) + ver)
         else:
             names.append(_name(rng))
     return names
@@ -214,6 +220,11 @@ def _absent_queries(rng, names, k):
             q = base + b'x' if rng.random() < 0.5 else base[:-1]
             if not _is_utf8(q):
                 q = None
+        elif names and r < 0.8 and any(b'@' in x for x in names):
+            # the pieces of a versioned name are not names of the symbol: base, base@, @VER, VER, base@@
+            v = rng.choice([x for x in names if b'@' in x])
+            base, _, ver = v.partition(b'@')
+            q = rng.choice([base, base, base, base + b'@', b'@' + ver, ver.lstrip(b'@'), base + b'@@', v + b'@'])
         if q is None:
             q = _name(rng)
         if q not in present and b'\0' not in q:
@@ -419,6 +430,12 @@ def corpus(ctx):
         for is64 in (1, 0):
             out.append(('symhist', [le, is64, 62, 0, 0, 11, hs, 0,
                                     [['iter', 1, 0], ['byname', b'dup'], ['byname', b''], ['byname', b'alpha'], ['byname', b'zz']]]))
+    # versioned spellings: memcpy@@GLIBC_2.14 does not bear the name memcpy (with and without a bare twin)
+    vs_ = [s(b'', 0), s(b'memcpy@@GLIBC_2.14', 0x10), s(b'x@y', 0x20), s(b'x', 0x30), s(b'a@b@c', 0x40), s(b'tail@', 0x50), s(b'@plt', 0x60)]
+    for le in (1, 0):
+        out.append(('symhist', [le, 1 - le, 62, 0, 0, 19, vs_, 1,
+                                [['byname', b'memcpy'], ['byname', b'x'], ['byname', b'a'], ['byname', b'a@b'], ['byname', b'tail'],
+                                 ['byname', b''], ['byname', b'memcpy@@GLIBC_2.14'], ['byname', b'x@y'], ['byname', b'GLIBC_2.14']]]))
     # a walk resumed after the consumer touched the file: get_symbol, a second walk in lock step, a seek
     for le in (1, 0):
         for is64 in (1, 0):
